@@ -13,6 +13,10 @@ pub struct Case {
     pub scn: Scn,
     pub k: i32,
     pub lat: u64,
+    /// when the side that is to fall behind goes to sleep (after the handshake: five round trips)
+    pub pause_at: u64,
+    /// only the ping / stats clauses are judged (the peer polls once per tick)
+    pub ping_only: bool,
 }
 
 pub fn cases(ctx: &Ctx) -> Vec<Case> {
@@ -43,19 +47,41 @@ pub fn cases(ctx: &Ctx) -> Vec<Case> {
                     s.start = Start::AllRunning;
                     let period_ms = 1000.0 / fps as f64;
                     let pause = (k.unsigned_abs() as f64 * period_ms).round() as u64;
+                    let pause_at = 1500 + 12 * lat.saturating_sub(100);
                     for n in 0..2 {
                         let mut c = NodeCfg { polls_per_tick: 8, jitter_ms: 0, ..Default::default() };
                         // the side that is to fall behind sleeps |k| frames once everybody is running
                         if (k > 0 && n == 1) || (k < 0 && n == 0) {
-                            c.pauses.push((1500, 1500 + pause));
+                            c.pauses.push((pause_at, pause_at + pause));
                         }
                         s.nodes.push(c);
                     }
                     s.settle_ms = 100;
-                    out.push(Case { id: format!("k{k}-lat{lat}-fps{fps}-{rep}"), scn: s, k, lat });
+                    out.push(Case { id: format!("k{k}-lat{lat}-fps{fps}-{rep}"), scn: s, k, lat, pause_at, ping_only: false });
                 }
             }
         }
+    }
+    // slow-polling peer: the other side polls once per tick only, so its replies leave up to one tick late and, at
+    // latencies near 100 ms, reach the observer AFTER its next quality report (sent every 200 ms) has gone out.
+    // Node 0 is the observer (8 polls per tick); only its ping is judged: 2l <= ping <= 2l + one tick (+ poll granularity).
+    for j in 0..ctx.n(120, 1500) {
+        let mut rr = r.fork(0x5100_0000 + j as u64);
+        let mut s = Scn::base(rr.next());
+        s.peers = vec![vec![0], vec![1]];
+        s.fps = rr.pick(&[30usize, 60, 20]);
+        s.mp = 16;
+        s.delay = rr.pick(&[0usize, 2]);
+        s.frames = if s.fps == 60 { 600 } else { 300 };
+        let lat = rr.pick(&[85u64, 90, 95, 98, 100]);
+        s.link = Link::clean(lat);
+        s.notify_ms = 20_000;
+        s.timeout_ms = 30_000;
+        s.start = Start::AllRunning;
+        s.nodes.push(NodeCfg { polls_per_tick: 8, jitter_ms: 0, ..Default::default() });
+        s.nodes.push(NodeCfg { polls_per_tick: 1, jitter_ms: rr.pick(&[0u64, 2]), ..Default::default() });
+        s.settle_ms = 100;
+        out.push(Case { id: format!("slowpeer-lat{lat}-fps{}-{j}", s.fps), scn: s, k: 0, lat, pause_at: 1500, ping_only: true });
     }
     out
 }
@@ -102,13 +128,35 @@ pub fn run_case(c: &Case) -> Outcome {
         }
     }
     // ---- steady part: after the pause, a warm-up of 90 frames and 3 quality report intervals
-    let t_steady = T0 + 1500 * MS + (c.k.unsigned_abs() as u64 + 90) * period + 700 * MS;
+    let t_steady = T0 + c.pause_at * MS + (c.k.unsigned_abs() as u64 + 90) * period + 700 * MS;
     // ... and before either side comes close to the frame target (where it stops advancing)
     let t_end = [a, b].iter().map(|n| n.frame_times.iter().find(|(_, f)| *f >= s.frames - 20).map(|x| x.0).unwrap_or(w.end_t)).min().unwrap();
     let recs_a: Vec<&FaRec> = a.fa_log.iter().filter(|r| r.t >= t_steady && r.t < t_end).collect();
     let recs_b: Vec<&FaRec> = b.fa_log.iter().filter(|r| r.t >= t_steady && r.t < t_end).collect();
     if recs_a.len() < 120 || recs_b.len() < 120 {
         out.inconclusive("too few steady observations");
+        return out;
+    }
+    // ---- ping within one tick of the true round trip time
+    for (n, recs) in [(a, &recs_a), (b, &recs_b)] {
+        if c.ping_only && n.addr != a.addr {
+            continue;
+        }
+        for r in recs.iter().filter(|r| r.ping >= 0) {
+            let err = r.ping - 2 * c.lat as i64;
+            out.count(&format!("ping_error_ms_{:+03}", err.clamp(-9, 40)), 1);
+            // slow peer: its reply leaves up to one of ITS ticks (+ its tick jitter) late, and the observer sees it at its
+            // next poll (an eighth of a tick later at most); no implementation can report less than that
+            let slack = if c.ping_only { (period / MS) as i64 / 8 + 2 + 2 } else { 0 };
+            if err < 0 || err > (period / MS) as i64 + 1 + slack {
+                out.violate(v("network_stats().ping is not within one tick of the true round-trip time", format!("node {} at t={} ms: ping {} ms, link round trip {} ms, tick {} ms", n.addr, (r.t - T0) / MS, r.ping, 2 * c.lat, period / MS), n.addr, r.t));
+                return out;
+            }
+        }
+    }
+    if c.ping_only {
+        out.nontrivial = true;
+        out.count("slow_peer_windows", 1);
         return out;
     }
     // measured lead of A over B at each side's observation instants
@@ -146,17 +194,6 @@ pub fn run_case(c: &Case) -> Outcome {
             out.count("sum_checks", 1);
             if (r.fa + rb.fa).abs() > 1 {
                 out.violate(v("frames_ahead() of the two peers do not sum to about zero", format!("t={} ms: A {} B {}", (r.t - T0) / MS, r.fa, rb.fa), a.addr, r.t));
-                return out;
-            }
-        }
-    }
-    // ---- ping within one tick of the true round trip time
-    for (n, recs) in [(a, &recs_a), (b, &recs_b)] {
-        for r in recs.iter().filter(|r| r.ping >= 0) {
-            let err = r.ping - 2 * c.lat as i64;
-            out.count(&format!("ping_error_ms_{:+03}", err.clamp(-9, 40)), 1);
-            if err < 0 || err > (period / MS) as i64 + 1 {
-                out.violate(v("network_stats().ping is not within one tick of the true round-trip time", format!("node {} at t={} ms: ping {} ms, link round trip {} ms, tick {} ms", n.addr, (r.t - T0) / MS, r.ping, 2 * c.lat, period / MS), n.addr, r.t));
                 return out;
             }
         }
@@ -224,7 +261,7 @@ pub fn check(ctx: &Ctx) -> i32 {
     let res = par_run(ctx, &cs, &|c: &Case| c.id.clone(), &run_case);
     let meta = Meta {
         level: "exploration",
-        rule: "two peers over a clean link with symmetric latency {0,5,10,20,50,100} ms, equal input delays, fps {30,60,120}, polling 8 times per frame (as the documented main loop does); a lead k in -7..=7 is produced by letting one side sleep |k| frames once both are Running; 900 frames. The true lead is MEASURED from the harness's own record of both game frames at the same virtual instant. Over the steady part (after the sleep, 90 frames and 700 ms of warm-up; only if the measured lead varies by at most 2): frames_ahead() of A within 1 of the measured lead interval, of B within 1 of its negation, their sum within 1 of zero; network_stats().ping in [2l, 2l + one tick]; remote_frames_behind equals the other side's local_frames_behind whenever that was constant for 3 report intervals; every WaitRecommendation has skip_frames == frames_ahead() >= 3 and successive ones are >= 60 frames apart; network_stats returns only NotSynchronized/NotEnoughData, never numbers, during the first second after session creation. Non-trivial: a steady window was judged. Distinct: grid cell + trace hash.".into(),
+        rule: "two peers over a clean link with symmetric latency {0,5,10,20,50,100} ms, equal input delays, fps {30,60,120}, polling 8 times per frame (as the documented main loop does); a lead k in -7..=7 is produced by letting one side sleep |k| frames once both are Running; 900 frames. The true lead is MEASURED from the harness's own record of both game frames at the same virtual instant. Over the steady part (after the sleep, 90 frames and 700 ms of warm-up; only if the measured lead varies by at most 2): frames_ahead() of A within 1 of the measured lead interval, of B within 1 of its negation, their sum within 1 of zero; network_stats().ping in [2l, 2l + one tick] (judged whether or not the lead was steady); remote_frames_behind equals the other side's local_frames_behind whenever that was constant for 3 report intervals; every WaitRecommendation has skip_frames == frames_ahead() >= 3 and successive ones are >= 60 frames apart; network_stats returns only NotSynchronized/NotEnoughData, never numbers, during the first second after session creation. A second family (slowpeer) has the other side poll only once per tick at latencies 85..100 ms and fps {20,30,60}, so that its quality replies arrive after the observer's next report went out; there only the observer's ping (2l .. 2l + one tick of the peer + one poll interval of the observer + 4 ms of tick jitter and rounding) and the not-enough-data clause are judged. Non-trivial: a steady window was judged. Distinct: grid cell + trace hash.".into(),
         assumptions: std_assumptions(),
         floor_nontrivial: if ctx.quick() { 150 } else { 1000 },
         exhaustive: None,
